@@ -508,6 +508,11 @@ def build_cases(tier, seed):
     # nn.Module wrappers (torch only): every class x option combination
     for c in module_configs(dims if tier == 'thorough' else [2, 3]):
         cases.append(c)
+    # permutation-symmetric Hermitian manifolds on A (x) B^k (manifold/_ABk.py)
+    for dA, dB, k in ((1, 2, 2), (2, 2, 1), (2, 2, 2), (2, 2, 3), (2, 3, 2), (3, 2, 2), (2, 2, 4)) + (((3, 3, 2), (2, 3, 3)) if tier == 'thorough' else ()):
+        for cls in ('ABkHermitian', 'ABk2localHermitian'):
+            for prec in (64, 32):
+                cases.append({'kind': 'abk', 'cls': cls, 'dim': dA, 'dimB': dB, 'k': k, 'prec': prec})
     cases.sort(key=lambda c: (c['dim'], c.get('rank') or 0, c['kind']))
     info = {'dims': dims, 'generic_atoms_per_config': 2 if tier == 'quick' else 6, 'scales': [1e-9, 1e-6, 1e-3, 0.5, 1, 2, 10, 'bound'],
             'batch_shapes': ['(K,)', '(K/2,2)', '()', '(1,)'], 'exhaustive': True,
@@ -942,7 +947,76 @@ def run_module(case, out, env):
     out.sample = {'config': c, 'parameter_count': n, 'groups': len(groups)}
 
 
+def run_abk(case, out, env):
+    import numqi
+    import torch
+    c = case
+    dA, dB, k = c['dim'], c['dimB'], c['k']
+    dt = torch.float64 if c['prec'] == 64 else torch.float32
+    eps = EPS[c['prec']]
+    site = 'module/%s' % c['cls']
+    N = dA * dB**k
+
+    def perm_B(mat, a, b):
+        t = mat.reshape([dA] + [dB] * k + [dA] + [dB] * k)
+        ax = list(range(2 * k + 2))
+        ax[1 + a], ax[1 + b] = ax[1 + b], ax[1 + a]
+        ax[k + 2 + a], ax[k + 2 + b] = ax[k + 2 + b], ax[k + 2 + a]
+        return t.transpose(ax).reshape(N, N)
+    try:
+        mod = getattr(numqi.manifold, c['cls'])(dA, dB, k, dtype=dt)
+    except Exception as e:
+        out.violation('%s/constructor_raises_%s' % (site, type(e).__name__), '%s(%d,%d,%d) raised %r' % (c['cls'], dA, dB, k, e), config=c)
+        out.state()
+        out.trans()
+        return
+    params = list(mod.parameters())
+    n = sum(p.numel() for p in params)
+    pts = theta_lattice(n, 100.0, env.rng('C01abk', c['cls'], n), 2)
+    pts = pts[:: max(1, len(pts) // 40)]
+    for row in [None] + list(pts):
+        if row is not None:
+            off = 0
+            with torch.no_grad():
+                for p in params:
+                    p.copy_(torch.tensor(row[off:off + p.numel()].reshape(p.shape), dtype=p.dtype))
+                    off += p.numel()
+        out.state()
+        out.trans()
+        M = to_np64(mod())
+        scale = max(1.0, np.abs(M).max())
+        tol = C * eps * k * scale
+        if M.shape != (N, N):
+            out.violation('%s/wrong_shape' % site, 'shape %s expected %s' % (M.shape, (N, N)), config=c)
+            return
+        if np.abs(M - M.conj().T).max() > tol:
+            out.violation('%s/not_hermitian' % site, '%s(%d,%d,%d) output is not Hermitian (%.3g)' % (c['cls'], dA, dB, k, np.abs(M - M.conj().T).max()), config=c, theta=row)
+            return
+        for a in range(k):
+            for b in range(a + 1, k):
+                if np.abs(perm_B(M, a, b) - M).max() > tol:
+                    out.violation('%s/not_permutation_symmetric' % site, '%s(%d,%d,%d) output changes under exchange of B copies %d,%d' % (c['cls'], dA, dB, k, a, b), config=c, theta=row)
+                    return
+        if c['cls'] == 'ABk2localHermitian':
+            H = np.asarray(mod.to_AB()).astype(np.complex128)
+            if np.abs(H - H.conj().T).max() > tol:
+                out.violation('%s/to_AB_not_hermitian' % site, 'to_AB() is not Hermitian', config=c)
+                return
+            base = np.kron(H, np.eye(dB**(k - 1)))
+            ref_ = base.copy()
+            for j in range(1, k):
+                ref_ = ref_ + perm_B(base, 0, j)
+            if np.abs(ref_ - M).max() > tol * 4:
+                out.violation('%s/not_sum_of_two_local_terms' % site, 'forward() is not sum_j H_AB acting on (A,B_j) with H_AB = to_AB() (diff %.3g)' % np.abs(ref_ - M).max(), config=c, theta=row)
+                return
+        out.outcome((c['cls'], dA, dB, k, np.round(M, 5)), nontrivial=True)
+    out.trace()
+    out.sample = {'config': c, 'parameter_count': n, 'lattice_points': len(pts)}
+
+
 def run_case(case, out, env):
+    if case['kind'] == 'abk':
+        return run_abk(case, out, env)
     if case['kind'] == 'func':
         run_func(case, out, env)
     else:
